@@ -46,6 +46,10 @@ class Synthetic(vs_grpc.VizierServiceServicer):
       context.abort(grpc.StatusCode.ALREADY_EXISTS, 'dup')
     if mode == 'none':
       return None
+    if mode == 'abort-4k-details':
+      context.abort(grpc.StatusCode.FAILED_PRECONDITION, 'x' * 4000)
+    if mode == 'abort-24k-details':
+      context.abort(grpc.StatusCode.FAILED_PRECONDITION, 'x' * 24000)
     raise AssertionError(mode)
 
 
@@ -76,10 +80,11 @@ def _cases(stub_real, stub_syn, syn):
   u.metadatum.value = 'v'
   u.trial_id = '77'
   out.append(('metadata-missing-trial', _observe(stub_real.UpdateMetadata, req)))
-  for mode in ('return', 'raise', 'setcode-return', 'setcode-raise', 'abort', 'none'):
+  for mode in ('return', 'raise', 'setcode-return', 'setcode-raise', 'abort', 'none', 'abort-4k-details',
+               'abort-24k-details'):
     r = _observe(stub_syn.CreateStudy, vs.CreateStudyRequest(parent='owners/o', study=study_pb2.Study(display_name=mode)))
-    if mode == 'none':
-      r = r[:2]  # the wording of the serialisation failure is not modelled
+    if mode in ('none', 'abort-24k-details'):
+      r = r[:2]  # the wording of transport-generated failures is not modelled
     out.append(('synthetic-' + mode, r, syn.effects))
   return out
 
